@@ -500,7 +500,7 @@ deriving Repr, Inhabited
 
 def Decoder_default : Decoder_St := { f_segmentedPackets := [] }
 
-def Decoder_decode_loop1 (fuel : Nat) (s : Decoder_St) (m : Bytes) (a_data : Nat) (a_size : Nat) (v_dataPtr : Nat) (v_packets : List PktOut) (v_header : Nat) (v_deviceId : Nat) (v_streamId : Nat) (v_packetPtr : Nat) (v_curSize : Nat) (v_packet : PktOut) : Option (Decoder_St × List PktOut × Nat × Nat × PktOut) :=
+def Decoder_decode_loop1 {F : Type} (fuel : Nat) (s : Decoder_St) (m : Bytes) (a_data : Nat) (a_size : Nat) (v_dataPtr : Nat) (v_packets : List (PktOut ⊕ F)) (v_header : Nat) (v_deviceId : Nat) (v_streamId : Nat) (v_packetPtr : Nat) (v_curSize : Nat) (v_packet : PktOut) : Option (Decoder_St × List (PktOut ⊕ F) × Nat × Nat × PktOut) :=
   match fuel with
   | 0 => none
   | fuel + 1 => do
@@ -520,7 +520,7 @@ def Decoder_decode_loop1 (fuel : Nat) (s : Decoder_St) (m : Bytes) (a_data : Nat
           let v_packet := { v_packet with version := t9 }
           let v_packet := { v_packet with deviceId := v_deviceId }
           let v_packet := { v_packet with streamId := v_streamId }
-          let v_packets := v_packets ++ [v_packet]
+          let v_packets := v_packets ++ [Sum.inl v_packet]
           let v_packetSize := (uadd 64 (pktPayloadLength v_packet) 16)
           let v_packetPtr := (v_packetPtr + v_packetSize)
           let t10 ← ssub 32 v_curSize (v_packetSize % 4294967296)
@@ -560,7 +560,7 @@ def Decoder_decode_loop1 (fuel : Nat) (s : Decoder_St) (m : Bytes) (a_data : Nat
                       let v_packet := t22
                       let v_packet := { v_packet with deviceId := v_deviceId }
                       let v_packet := { v_packet with streamId := v_streamId }
-                      let v_packets := v_packets ++ [v_packet]
+                      let v_packets := v_packets ++ [Sum.inl v_packet]
                       let s := { s with f_segmentedPackets := mapErase s.f_segmentedPackets (v_deviceId, v_streamId) }
                       pure (s, v_packets, v_packet))
                     else (do
@@ -572,7 +572,7 @@ def Decoder_decode_loop1 (fuel : Nat) (s : Decoder_St) (m : Bytes) (a_data : Nat
       pure (s, v_packets, v_packetPtr, v_curSize, v_packet)
 
 /-- `ASAM::CMP::Decoder::decode` -/
-def Decoder_decode_obj (fuel : Nat) (s : Decoder_St) (m : Bytes) (a_data : Nat) (a_size : Nat) (ext_Decode : Bytes → Nat → Nat → List PktOut) : Option (Decoder_St × List PktOut) := do
+def Decoder_decode_obj {F : Type} (fuel : Nat) (s : Decoder_St) (m : Bytes) (a_data : Nat) (a_size : Nat) (ext_Decode : Bytes → Nat → Nat → List F) : Option (Decoder_St × List (PktOut ⊕ F)) := do
   if (a_data == 0) then
     pure (s, [])
   else
@@ -582,9 +582,9 @@ def Decoder_decode_obj (fuel : Nat) (s : Decoder_St) (m : Bytes) (a_data : Nat) 
       let v_dataPtr := a_data
       let t1 ← rd m v_dataPtr 1
       if (t1 == 0) then
-        pure (s, ext_Decode m a_data a_size)
+        pure (s, (ext_Decode m a_data a_size).map Sum.inr)
       else
-        let v_packets := ([] : List PktOut)
+        let v_packets := ([] : List (PktOut ⊕ F))
         let v_header := a_data
         let t2 ← CmpHeader_getDeviceId m v_header
         let v_deviceId := t2
@@ -865,6 +865,52 @@ def swap_Packet_pv (a_lhs : PacketV_St) (a_rhs : PacketV_St) : Option (PacketV_S
   let a_lhs := { a_lhs with f_payload := t20 }
   let a_rhs := { a_rhs with f_payload := t19 }
   pure (a_lhs, a_rhs)
+
+/-- `ASAM::CMP::swap` void (ASAM::CMP::Packet &, ASAM::CMP::Packet &) noexcept
+    ALIASING VARIANT of the same body: the reference parameters `lhs` and `rhs` denote the one object `s`; `std::swap(a, a)` is the moves it is
+    (`tmp = a; a = a; a = tmp`, for a `unique_ptr` the exchange of its pointer with itself): read, read, write, write — the identity -/
+def swap_Packet_same_pv (s : PacketV_St) : Option (PacketV_St) := do
+  let t1 := s.f_version
+  let t2 := s.f_version
+  let s := { s with f_version := t2 }
+  let s := { s with f_version := t1 }
+  let t3 := s.f_deviceId
+  let t4 := s.f_deviceId
+  let s := { s with f_deviceId := t4 }
+  let s := { s with f_deviceId := t3 }
+  let t5 := s.f_streamId
+  let t6 := s.f_streamId
+  let s := { s with f_streamId := t6 }
+  let s := { s with f_streamId := t5 }
+  let t7 := s.f_sequenceCounter
+  let t8 := s.f_sequenceCounter
+  let s := { s with f_sequenceCounter := t8 }
+  let s := { s with f_sequenceCounter := t7 }
+  let t9 := s.f_timestamp
+  let t10 := s.f_timestamp
+  let s := { s with f_timestamp := t10 }
+  let s := { s with f_timestamp := t9 }
+  let t11 := s.f_interfaceId
+  let t12 := s.f_interfaceId
+  let s := { s with f_interfaceId := t12 }
+  let s := { s with f_interfaceId := t11 }
+  let t13 := s.f_vendorId
+  let t14 := s.f_vendorId
+  let s := { s with f_vendorId := t14 }
+  let s := { s with f_vendorId := t13 }
+  let t15 := s.f_commonFlags
+  let t16 := s.f_commonFlags
+  let s := { s with f_commonFlags := t16 }
+  let s := { s with f_commonFlags := t15 }
+  let t17 := s.f_segmentType
+  let t18 := s.f_segmentType
+  let s := { s with f_segmentType := t18 }
+  let s := { s with f_segmentType := t17 }
+  let t19 := s.f_payload
+  let t20 := s.f_payload
+  let s := { s with f_payload := t20 }
+  let s := { s with f_payload := t19 }
+  pure s
 
 /-- `ASAM::CMP::Packet::Packet` void (ASAM::CMP::Packet &&) noexcept -/
 def Packet_ctor_move_pv (a_other : PacketV_St) : Option (PacketV_St × PacketV_St) := do
@@ -1339,6 +1385,14 @@ def Packet_opAssign_move_pv (s : PacketV_St) (a_other : PacketV_St) : Option (Pa
   let a_other := o2
   pure (s, (), a_other)
 
+/-- `ASAM::CMP::Packet::operator=` ASAM::CMP::Packet &(ASAM::CMP::Packet &&) noexcept
+    ALIASING VARIANT of the same body: the reference parameter `other` denotes `*this` (it is no Lean parameter; every read / write through it
+    goes to the current `s`) -/
+def Packet_opAssign_move_self_pv (s : PacketV_St) : Option (PacketV_St × Unit) := do
+  let o1 ← swap_Packet_same_pv s
+  let s := o1
+  pure (s, ())
+
 /-- `ASAM::CMP::Packet::operator=` ASAM::CMP::Packet &(const ASAM::CMP::Packet &) -/
 def Packet_opAssign_copy_pv (s : PacketV_St) (a_other : PacketV_St) : Option (PacketV_St × Unit) := do
   let g_sameObject := false
@@ -1352,7 +1406,9 @@ def Packet_opAssign_copy_pv (s : PacketV_St) (a_other : PacketV_St) : Option (Pa
   else
     pure (s, ())
 
-/-- `ASAM::CMP::Packet::operator=` ASAM::CMP::Packet &(const ASAM::CMP::Packet &) -/
+/-- `ASAM::CMP::Packet::operator=` ASAM::CMP::Packet &(const ASAM::CMP::Packet &)
+    ALIASING VARIANT of the same body: the reference parameter `other` denotes `*this` (it is no Lean parameter; every read / write through it
+    goes to the current `s`) -/
 def Packet_opAssign_copy_self_pv (s : PacketV_St) : Option (PacketV_St × Unit) := do
   let g_sameObject := true
   if (!g_sameObject) then
@@ -1556,14 +1612,12 @@ def opNe_Packet_pv (fuel : Nat) (g_samePtr : Bool) (a_lhs : PacketV_St) (a_rhs :
 /-- functions with a body of the value-mode classes that are not translated (or deliberately not generated), with the reason -/
 def PacketValue_untranslated : List (String × String) := [
   ("ASAM::CMP::Packet::getPayload ASAM::CMP::Payload &()", "returns a mutable reference into the object"),
-  ("ASAM::CMP::Packet::operator= ASAM::CMP::Packet &(ASAM::CMP::Packet &&) noexcept [two of its object arguments are the same object]", "not generated: `Packet_opAssign_move_pv` is for DISTINCT objects (no address comparison in the body to derive a `_self` variant from)"),
   ("ASAM::CMP::Payload::getRawPayload const uint8_t *() const", "returns a pointer (used through its provenance at the call sites)"),
   ("ASAM::CMP::Payload::setData void (const uint8_t *, const size_t)", "template"),
   ("ASAM::CMP::PayloadType::PayloadType void (const ASAM::CMP::PayloadType &) noexcept", "implicit copy / assignment of a single-scalar class: the value itself (no function generated)"),
-  ("ASAM::CMP::PayloadType::operator= ASAM::CMP::PayloadType &(const ASAM::CMP::PayloadType &) noexcept", "implicit copy / assignment of a single-scalar class: the value itself (no function generated)"),
-  ("ASAM::CMP::swap void (ASAM::CMP::Packet &, ASAM::CMP::Packet &) noexcept [two of its object arguments are the same object]", "not generated: `swap_Packet_pv` is for DISTINCT objects (no address comparison in the body to derive a `_self` variant from)")
+  ("ASAM::CMP::PayloadType::operator= ASAM::CMP::PayloadType &(const ASAM::CMP::PayloadType &) noexcept", "implicit copy / assignment of a single-scalar class: the value itself (no function generated)")
 ]
 
-def PacketValue_translated : List String := ["Packet_ctor_default_pv", "swap_Packet_pv", "Packet_ctor_move_pv", "Payload_ctor_copy_pv", "Packet_ctor_copy_pv", "Packet_setTimestamp_pv", "Packet_setInterfaceId_pv", "Packet_setCommonFlags_pv", "Packet_setVendorId_pv", "Packet_setMessageHeader_pv", "PayloadType_getType_pv", "opEq_PayloadType_pv", "opNe_PayloadType_pv", "PayloadType_ctor_u32_pv", "Payload_ctor_PayloadType_ptr_u64_pv", "CanPayloadBase_ctor_PayloadType_ptr_u64_pv", "CanPayload_ctor_ptr_u64_pv", "CanFdPayload_ctor_ptr_u64_pv", "LinPayload_ctor_ptr_u64_pv", "AnalogPayload_ctor_ptr_u64_pv", "EthernetPayload_ctor_ptr_u64_pv", "CaptureModulePayload_ctor_ptr_u64_pv", "InterfacePayload_ctor_ptr_u64_pv", "Packet_create_pv", "PayloadType_ctor_u8_u8_pv", "Packet_ctor_u8_ptr_u64_pv", "Packet_getCommonFlag_pv", "Packet_getCommonFlags_pv", "Packet_getDeviceId_pv", "Packet_getInterfaceId_pv", "PayloadType_getMessageType_pv", "Payload_getMessageType_pv", "Packet_getMessageType_pv", "Packet_getPayload_pv", "Payload_getLength_pv", "Packet_getPayloadLength_pv", "PayloadType_getRawPayloadType_pv", "Payload_getRawPayloadType_pv", "Packet_getPayloadType_pv", "Packet_getVersion_pv", "Packet_getStreamId_pv", "Packet_getSequenceCounter_pv", "Packet_getRawCmpHeader_pv", "Packet_getTimestamp_pv", "Packet_getVendorId_pv", "Packet_getRawMessageHeader_pv", "Packet_getSegmentType_pv", "PayloadType_isValid_pv", "Payload_isValid_pv", "Packet_isValid_pv", "Packet_isValidPacket_pv", "Packet_opAssign_move_pv", "Packet_opAssign_copy_pv", "Packet_opAssign_copy_self_pv", "Packet_setCommonFlag_pv", "Packet_setDeviceId_pv", "Packet_setPayload_pv", "Packet_setSegmentType_pv", "Packet_setSequenceCounter_pv", "Packet_setStreamId_pv", "Packet_setVersion_pv", "Payload_ctor_PayloadType_u64_pv", "Payload_getType_pv", "PayloadType_setMessageType_pv", "Payload_setMessageType_pv", "PayloadType_setRawPayloadType_pv", "Payload_setRawPayloadType_pv", "Payload_setType_pv", "PayloadType_setType_pv", "opEq_Payload_pv", "opEq_Packet_pv", "opNe_Packet_pv"]
+def PacketValue_translated : List String := ["Packet_ctor_default_pv", "swap_Packet_pv", "swap_Packet_same_pv", "Packet_ctor_move_pv", "Payload_ctor_copy_pv", "Packet_ctor_copy_pv", "Packet_setTimestamp_pv", "Packet_setInterfaceId_pv", "Packet_setCommonFlags_pv", "Packet_setVendorId_pv", "Packet_setMessageHeader_pv", "PayloadType_getType_pv", "opEq_PayloadType_pv", "opNe_PayloadType_pv", "PayloadType_ctor_u32_pv", "Payload_ctor_PayloadType_ptr_u64_pv", "CanPayloadBase_ctor_PayloadType_ptr_u64_pv", "CanPayload_ctor_ptr_u64_pv", "CanFdPayload_ctor_ptr_u64_pv", "LinPayload_ctor_ptr_u64_pv", "AnalogPayload_ctor_ptr_u64_pv", "EthernetPayload_ctor_ptr_u64_pv", "CaptureModulePayload_ctor_ptr_u64_pv", "InterfacePayload_ctor_ptr_u64_pv", "Packet_create_pv", "PayloadType_ctor_u8_u8_pv", "Packet_ctor_u8_ptr_u64_pv", "Packet_getCommonFlag_pv", "Packet_getCommonFlags_pv", "Packet_getDeviceId_pv", "Packet_getInterfaceId_pv", "PayloadType_getMessageType_pv", "Payload_getMessageType_pv", "Packet_getMessageType_pv", "Packet_getPayload_pv", "Payload_getLength_pv", "Packet_getPayloadLength_pv", "PayloadType_getRawPayloadType_pv", "Payload_getRawPayloadType_pv", "Packet_getPayloadType_pv", "Packet_getVersion_pv", "Packet_getStreamId_pv", "Packet_getSequenceCounter_pv", "Packet_getRawCmpHeader_pv", "Packet_getTimestamp_pv", "Packet_getVendorId_pv", "Packet_getRawMessageHeader_pv", "Packet_getSegmentType_pv", "PayloadType_isValid_pv", "Payload_isValid_pv", "Packet_isValid_pv", "Packet_isValidPacket_pv", "Packet_opAssign_move_pv", "Packet_opAssign_move_self_pv", "Packet_opAssign_copy_pv", "Packet_opAssign_copy_self_pv", "Packet_setCommonFlag_pv", "Packet_setDeviceId_pv", "Packet_setPayload_pv", "Packet_setSegmentType_pv", "Packet_setSequenceCounter_pv", "Packet_setStreamId_pv", "Packet_setVersion_pv", "Payload_ctor_PayloadType_u64_pv", "Payload_getType_pv", "PayloadType_setMessageType_pv", "Payload_setMessageType_pv", "PayloadType_setRawPayloadType_pv", "Payload_setRawPayloadType_pv", "Payload_setType_pv", "PayloadType_setType_pv", "opEq_Payload_pv", "opEq_Packet_pv", "opNe_Packet_pv"]
 
 end AsamCmp.SrcGen
